@@ -1,4 +1,14 @@
 import BnpVerif.Props.C19
+/-! Scope of the theorems below (audit review #22). Two clauses of C19 have NO Lean counterpart and are established by
+the correspondence only (harness/props/c19.py against the pure-Python list-of-tuples oracle, every run):
+* "to and from pandas are mutually inverse": `to_pandas` / `from_data_frame` are run on every table type and compared
+  cell by cell with the oracle; pandas is an external and is not modelled.
+* "the operands are unchanged": the model is functional, so the clause is trivially true of it and says nothing
+  about the code; the harness snapshots every operand (and, with `live_cases`, every earlier result) before an
+  operation and compares it afterwards, including after a LATER call.
+The dict round trip IS modelled (`fromDict_toDict`); the typed constructor and `add_fields` inference are kernel-checked
+over tables regenerated from the running code (`construct_*`, `infer_*`), i.e. they are statements about the tabulated
+dispatch, not about Python source. -/
 #print axioms C19.inv
 #print axioms C19.step_wf
 #print axioms C19.toRows_length
